@@ -38,7 +38,8 @@ TECHNIQUE = 'Lean 4 theorem (soundness+completeness vs. RFC serialiser spec) + d
 REQUIRED_THEOREMS = ['OpusProps.C06.parse_complete', 'OpusProps.C06.parse_sound', 'OpusProps.C06.parse_accepts_iff',
                      'OpusProps.C06.parse_accepts_iff_sd', 'OpusProps.C06.parse_in_bounds',
                      'OpusProps.C06.parse_reads_only_packet', 'OpusProps.C06.parse_err_kind',
-                     'OpusProps.C06.encodeSize_eq_spec', 'OpusProps.C06.helpers_agree']
+                     'OpusProps.C06.encodeSize_eq_spec', 'OpusProps.C06.helpers_agree',
+                     'OpusProps.C06.nb_frames_agrees', 'OpusProps.C06.has_lbrr_reads_only_packet']
 UNPROVED = ['int_ranges (every intermediate of the C parser fits opus_int32 when len < 2^31, and the opus_int16 stores are '
             'lossless on success) — the model uses unbounded Int; on success all stored sizes are <= 1275 by '
             'parse_in_bounds, the 32-bit range of intermediates is only covered by UBSan in the correspondence runs']
